@@ -297,6 +297,25 @@ OK0 = [{'dc': 'Ok'}, {'f': '0', 'of': 'std::result::Result::Ok'}]
 ERR0 = [{'dc': 'Err'}, {'f': '0', 'of': 'std::result::Result::Err'}]
 
 
+def _tuple_parts(ty):
+    parts = []; depth = 0; cur = ''
+    for ch in ty[1:-1]:
+        if ch in '<(': depth += 1
+        elif ch in '>)': depth -= 1
+        if ch == ',' and depth == 0: parts.append(cur.strip()); cur = ''
+        else: cur += ch
+    if cur.strip(): parts.append(cur.strip())
+    return parts
+
+
+def _defaultable(ty):
+    """types whose Default::default() the Opener writes out as a literal: f64, std collections, tuples of those"""
+    ty = ty.strip()
+    if ty == 'f64' or re.match(r'^std::collections::(BTreeSet|BTreeMap|HashMap|HashSet)<.*>$', ty) or re.match(r'^std::vec::Vec<.*>$', ty): return True
+    if ty.startswith('(') and ty.endswith(')') and len(ty) > 2: return all(_defaultable(p) for p in _tuple_parts(ty))
+    return False
+
+
 class Opener(NZ.Normalizer):
     def __init__(self, F, helpers=False):
         super().__init__(F, None, True)
@@ -376,6 +395,12 @@ class Opener(NZ.Normalizer):
                 if CLOSURE_CALL.search(nm) or CLOSURE_CALL.search(T.strip_generics_tail(t.get('f') or '')) or (cb is not None and cb.kind == 'closure'):
                     t['opened'] = True
                     if self._open_call(rw, bi, t): return True
+                elif (t.get('ri') or {}).get('trait') == 'std::default::Default' and (t.get('ri') or {}).get('item') == 'default' and not t['args'] and not t['dst']['p'] \
+                        and _defaultable(rw.locals[t['dst']['l']]):
+                    # `Default::default()` of a type whose default is a known literal: (f64, BTreeSet<u64>)::default() ≡ (0.0, BTreeSet::new())
+                    t['opened'] = True
+                    self._default(rw, bi, t['dst'], rw.locals[t['dst']['l']], t['t'], t.get('span')); rw.changed = True
+                    return True
                 else:
                     m = COMBINATOR.match(nm)
                     if m:
@@ -846,10 +871,51 @@ class Kernel:
     def __init__(self, ctx, body):
         self.ctx = ctx; self.body = body; self.vx = VX(body); self.spec = None; self.scope = None; self.oks = None      # oks: the Ok-exits that count as "the" exit (shortcut exits are validated separately)
         self.for_loops = T.for_loops(body)                       # (next_call, header, some_bb, none_bb, blocks)
+        self.lockstep = {}                                       # next-call block -> representative next-call block of the same hand-written zip
+        self.for_loops += self._lockstep_loops()
         self.by_next = {lo[0].bb: lo for lo in self.for_loops}
         self.by_header = {lo[1]: lo for lo in self.for_loops}
         self.nat = body.loops()
         self._comp = {}
+
+    def _lockstep_loops(self):
+        """the iterator protocol by hand, several iterators in lockstep:
+               while let (Some(a), Some(b), ..) = (xs.next(), ys.next(), ..) { body }     ≡     for (a, b, ..) in multizip((xs, ys, ..)) { body }
+        every next() of the packed tuple becomes a loop entry of its own (its items are `tuple.k as Some.0`), all with the header of the natural loop and the
+        block reached when *all* components are Some as the start of the body; canon() maps them to one loop."""
+        body = self.body; known = {lo[0].bb for lo in self.for_loops}; nat = body.loops()
+        groups = {}
+        for c in body.calls:
+            if c.item != 'next' or not (c.trait or '').endswith('Iterator') or c.bb in known or c.dst['p']: continue
+            for kind, bi, st in body.uses.get(c.dst['l'], ()):
+                if kind != 'stmt' or st['rv']['k'] != 'agg' or st['rv']['adt'] != 'tuple' or st['dst']['p']: continue
+                idx = [i for i, o in enumerate(st['rv']['ops']) if o['k'] in ('copy', 'move') and o['pl'] == {'l': c.dst['l'], 'p': []}]
+                if len(idx) != 1: continue
+                tl = st['dst']['l']
+                # the test `discr(tuple.i)` + switch
+                for k2, b2, d in body.uses.get(tl, ()):
+                    if k2 != 'stmt' or d['rv']['k'] != 'discr': continue
+                    fs = [e for e in d['rv']['pl']['p'] if e != '*']
+                    if len(fs) != 1 or not isinstance(fs[0], dict) or fs[0].get('f') != str(idx[0]): continue
+                    for k3, b3, sw in body.uses.get(d['dst']['l'], ()):
+                        if k3 == 'switch':
+                            m = {v: t for v, t in sw['ts']}
+                            groups.setdefault(tl, []).append((c, b3, m.get(1, sw['else']), m.get(0, sw['else'])))
+        out = []
+        for tl, members in groups.items():
+            tests = {sb for c, sb, some, none in members}
+            final = [(c, sb, some, none) for c, sb, some, none in members if some not in tests]
+            if len(final) != 1: continue
+            some_all, none_bb = final[0][2], final[0][3]
+            cand = [(h, bl) for h, bl in nat.items() if all(c.bb in bl for c, sb, some, none in members)]
+            if not cand: continue
+            h, blocks = min(cand, key=lambda x: len(x[1]))
+            # every member's None side leaves the loop (zip semantics: stop as soon as one is exhausted)
+            if any(none in blocks for c, sb, some, none in members): continue
+            rep = min(c.bb for c, sb, some, none in members)
+            for c, sb, some, none in members:
+                out.append((c, h, some_all, none_bb, blocks)); self.lockstep[c.bb] = rep
+        return out
 
     def innermost(self, bb):
         c = [(h, bl) for h, bl in self.nat.items() if bb in bl]
@@ -892,6 +958,7 @@ class Kernel:
     def canon(self, nb, depth=0):
         """loop fission: a loop over a Vec that another loop filled with one push per iteration runs in step with that loop
         (k-th element = value pushed in the k-th iteration).  Both are the same loop for "which term is this" questions."""
+        nb = self.lockstep.get(nb, nb)             # the next() calls of one hand-written zip are one loop
         lo = self.by_next.get(nb)
         if lo is None or depth > 3: return nb
         leaves = list(comp_leaves(self.comp_of(lo)))
@@ -1031,6 +1098,15 @@ class Kernel:
         lo = self.by_next.get(nb)
         if lo is None: return ['loop not found']
         out = []
+        # the loop's iterator is advanced by this loop only (with the protocol written by hand - `while let Some(x) = it.next()` - the body could pull more)
+        a0 = lo[0].args[0]
+        it = self.vx.alias.get(a0['pl']['l'], a0['pl']['l']) if a0['k'] in ('copy', 'move') else None
+        if it is not None:
+            for c in self.body.calls:
+                if c.bb == nb or not c.args or c.args[0]['k'] not in ('copy', 'move'): continue
+                l0 = c.args[0]['pl']['l']
+                if (self.vx.alias.get(l0, l0) == it) and c.bb in self.body.reach([lo[1]]) and '&mut' in self.body.locals[l0]:
+                    out.append('the iterator of the loop is also advanced elsewhere (%s)' % c.item)
         for leaf in comp_leaves(self.comp_of(lo)):
             k = leaf[0]
             if k == 'index': continue
